@@ -109,6 +109,32 @@ Proof.
   destruct (WS.model.Vanilla.client_header_from_array _); reflexivity.
 Qed.
 
+(* ServerCrypto::decrypt_client_header has a body of its own (it does not delegate to the half): translated from
+   src/wrath_header/mod.rs with the combined object's raw decrypt as the external call, it is the model's
+   sc_decrypt_client_header -- and that is the half's decrypt_client_header lifted to the combined object *)
+Definition sc_view (r : nres (server_crypto * list N)) : option (server_crypto * list N) := match r with Ok a => Some a | _ => None end.
+Lemma wrath_server_crypto_decrypt_client_header_translated : forall c data, length data = 6%nat ->
+  tr_wrath_server_crypto_decrypt_client_header (fun c d => sc_view (sc_decrypt c d)) c data
+  = match sc_decrypt_client_header c data with Ok a => Some a | _ => None end.
+Proof.
+  intros c data Hl. unfold tr_wrath_server_crypto_decrypt_client_header, sc_decrypt_client_header.
+  destruct (sc_decrypt c data) as [[c' o]|e|] eqn:E; [|destruct e|reflexivity]. cbn [sc_view].
+  unfold sc_decrypt, lift_enc, sd_decrypt in E.
+  destruct (inner_apply (sd_rc4 (sc_dec c)) data) as [[r' o']|e|] eqn:E1; [|destruct e|discriminate].
+  injection E as _ <-.
+  pose proof (apply_keystream_length _ _ _ _ E1) as L. rewrite Hl in L.
+  destruct o' as [|b0 [|b1 [|b2 [|b3 [|b4 [|b5 [|]]]]]]]; try discriminate L.
+  rewrite client_header_from_array_translated.
+  destruct (WS.model.Vanilla.client_header_from_array _); reflexivity.
+Qed.
+Lemma wrath_server_crypto_decrypt_client_header_is_half : forall c data,
+  sc_decrypt_client_header c data = lift_enc sc_dec sc_set_dec (fun h => decrypt_client_header h data) c.
+Proof.
+  intros c data. unfold sc_decrypt_client_header, sc_decrypt, lift_enc, decrypt_client_header.
+  destruct (sd_decrypt (sc_dec c) data) as [[h o]|e|]; [|reflexivity|reflexivity].
+  destruct (WS.model.Vanilla.client_header_from_array o); reflexivity.
+Qed.
+
 Definition srview (r : nres (server_dec * res (hdr * rscript) io_kind)) (s : rscript) : option (rc4 * (hdr + io_kind) * rscript) :=
   match r with
   | Ok (h, Ok (a, rest)) => Some (sd_rc4 h, inl a, rest)
